@@ -50,6 +50,9 @@ pub enum Op {
     Reset(RawCfg),
     /// reset to exactly the configuration the object already has
     ResetSame,
+    /// reset to a configuration derived from the current one: its values permuted, or one of them
+    /// changed to a neighbour (falls back to the same configuration when the result is not valid)
+    ResetDerived { how: u8 },
     /// reset that must fail: 0 zero originals, 1 zero recovery, 2 both too large, 3 odd size, 4 zero size,
     /// 5 outside this family's envelope, 6 other counts (possibly the other rate) with odd size, 7 other counts with size 0
     ResetBad { variant: u8, cfg: RawCfg },
@@ -90,7 +93,7 @@ pub struct OpWeights {
 
 pub fn op(max_medium: usize, w: &OpWeights) -> BoxedStrategy<Op> {
     prop_oneof![
-        w.reset => prop_oneof![5 => raw_cfg(max_medium).prop_map(Op::Reset), 1 => Just(Op::ResetSame)],
+        w.reset => prop_oneof![5 => raw_cfg(max_medium).prop_map(Op::Reset), 1 => Just(Op::ResetSame), 2 => (0u8..14).prop_map(|how| Op::ResetDerived { how })],
         w.reset_bad => prop_oneof![
             3 => (0u8..8, raw_cfg(max_medium)).prop_map(|(variant, cfg)| Op::ResetBad { variant, cfg }),
             1 => (raw_cfg(max_medium), any::<bool>()).prop_map(|(cfg, zero)| Op::ResetRetry { cfg, zero }),
@@ -358,6 +361,10 @@ pub fn expand(op: &Op, dec: bool, kind: Kind, cur: Cfg, acc: &Accepted) -> Vec<C
             vec![Call::Reset(c.k, c.r, c.b)]
         }
         Op::ResetSame => vec![Call::Reset(cur.k, cur.r, cur.b)],
+        Op::ResetDerived { how } => {
+            let c = derived_cfg(kind, cur, *how);
+            vec![Call::Reset(c.k, c.r, c.b)]
+        }
         Op::ResetRetry { cfg, zero } => {
             let c = cfg.orient(kind);
             vec![Call::Reset(c.k, c.r, if *zero { 0 } else { c.b + 1 }), Call::Reset(c.k, c.r, c.b)]
@@ -375,6 +382,33 @@ pub fn expand(op: &Op, dec: bool, kind: Kind, cur: Cfg, acc: &Accepted) -> Vec<C
     }
 }
 
+/// a configuration related to `cur`: permutations of (k, r, b) and single-value neighbours
+pub fn derived_cfg(kind: Kind, cur: Cfg, how: u8) -> Cfg {
+    let Cfg { k, r, b } = cur;
+    let c = match how {
+        0 => Cfg { k: r, r: k, b },
+        1 => Cfg { k, r: b, b: r },
+        2 => Cfg { k: b, r, b: k },
+        3 => Cfg { k: r, r: b, b: k },
+        4 => Cfg { k: b, r: k, b: r },
+        5 => Cfg { k: k + 1, r, b },
+        6 => Cfg { k: k.saturating_sub(1), r, b },
+        7 => Cfg { k, r: r + 1, b },
+        8 => Cfg { k, r: r.saturating_sub(1), b },
+        9 => Cfg { k, r, b: b + 2 },
+        10 => Cfg { k, r, b: b.saturating_sub(2) },
+        11 => Cfg { k, r, b: b * 2 },
+        12 => Cfg { k: k * 2, r, b },
+        _ => Cfg { k, r: r * 2, b },
+    };
+    let ok = kind.env(c.k, c.r) && c.b >= 2 && c.b % 2 == 0 && (c.k + c.r) * c.b <= (2 << 20) && c.k + c.r <= 4000;
+    if ok {
+        c
+    } else {
+        cur
+    }
+}
+
 /// configuration a Recycle op leads to
 pub fn recycle_cfg(op_kind: Kind, cfg: &RawCfg, same: bool, cur: Cfg) -> Cfg {
     if same && op_kind.env(cur.k, cur.r) {
@@ -388,6 +422,7 @@ pub fn op_label(op: &Op) -> &'static str {
     match op {
         Op::Reset(_) => "reset",
         Op::ResetSame => "reset_same",
+        Op::ResetDerived { .. } => "reset_derived",
         Op::ResetRetry { .. } => "reset_retry",
         Op::ResetBad { .. } => "reset_bad",
         Op::Recycle { .. } => "recycle",
